@@ -350,7 +350,17 @@ def cases(draw):
     for _ in range(n):
         k = draw(st.integers(1, 3))
         cls.append([draw(st.sampled_from([1, 2, 3, 4])) * draw(st.sampled_from([1, -1])) for _ in range(k)])
-    if draw(st.booleans()):
+    if draw(st.integers(0, 3)) == 0:
+        # directed: a resolution step both of whose parents keep other literals, one parent repeating a literal in its remainder
+        # (clauses are lists; nothing in the clause-list stage removes repeats), closed off by units so that the set is UNSAT
+        pv, a_, b_ = draw(st.permutations([1, 2, 3, 4]))[:3]
+        sg = lambda x: x * draw(st.sampled_from([1, -1]))
+        a_, b_ = sg(a_), sg(b_)
+        rep = draw(st.sampled_from([[-pv, b_, b_], [b_, -pv, b_], [b_, b_, -pv], [-pv, b_, a_, b_], [-pv, b_, b_, b_]]))
+        other = draw(st.sampled_from([[pv, a_], [a_, pv], [pv, a_, a_], [pv, b_]]))
+        cls = [c_ for c_ in cls[: draw(st.integers(0, 2))]] + [rep, other, [-b_], [-a_]]
+        cls = list(draw(st.permutations(cls)))
+    elif draw(st.booleans()):
         # make it unsatisfiable more often: add unit clauses contradicting a chain
         v = draw(st.sampled_from([1, 2, 3, 4]))
         cls.insert(draw(st.integers(0, len(cls))), [v]); cls.insert(draw(st.integers(0, len(cls))), [-v])
